@@ -76,7 +76,7 @@ class LeaderFollowerIntersector(Intersector):
         new_intersects = len(traces[0])
 
         # Throw away the header, since we don't need it
-        if not self.started:
+        if not self.started and traces[0]:
             self.started = True
             new_intersects -= 1
 
